@@ -84,8 +84,26 @@ def gen_run_cfg(r, i):
 def check_runs(chk, cfgs, tol=1e-6):
     from .. import smcrun
 
-    for cfg in cfgs:
-        res = smcrun.run_smc(cfg, watchdog_iters=300)
+    runs = []
+    for j, cfg in enumerate(cfgs):
+        runs.append((cfg, smcrun.run_smc(cfg, watchdog_iters=300)))
+        if j % 3 == 2:
+            # the same analysis interrupted after its first iterations and resumed asking for ANOTHER number of samples (the restored
+            # population keeps its size: the efficiency in every later step is still ESS over the size of the population it is
+            # computed from)
+            k = 1 + 3 * int(1 + j % 2)
+            r1 = smcrun.run_smc({**cfg, "checkpoint_every": 1}, fault_at=k, record_checkpoints=True, watchdog_iters=300)
+            src = r1["ckpts"][-1]["bytes"] if r1["status"] == "fault" and r1["ckpts"] else None
+            if src is not None:
+                other = int(cfg["n_samples"] // 4) if j % 2 else int(cfg["n_samples"] * 3)
+                cfg2 = {**cfg, "checkpoint_every": 1, "n_samples": other}
+                try:
+                    runs.append(({**cfg2, "resumed_with_n_samples": other, "original_n_samples": cfg["n_samples"]},
+                                 smcrun.resume_smc(cfg2, src, watchdog_iters=300)))
+                    chk.count("run-level:resumed_with_other_n_samples")
+                except Exception as e:   # noqa
+                    chk.fail("run total", {"level": "run", "cfg": cfg2}, repr(e)[:200], {"level": "run", "clause": "raise"})
+    for cfg, res in runs:
         chk.count("run-level")
         chk.case(None, json.dumps(cfg))
         if smcrun.collapsed_population(res) or res["status"] != "done":
